@@ -70,20 +70,24 @@ def c05_2(rep, ix):
     key = resolved_text(fn, st.targets[0].slice, st)
     rep.check(key == "ctx.name().getText()", R, ix.site(f, st), "the variable is stored under the text of its name", "key `%s`" % key, key="key")
     defs = [n for n in walk_shallow(fn) if isinstance(n, ast.Assign) and u(n.targets[0]) == fv]
+    vsrc = [n for n in walk_shallow(fn) if isinstance(n, ast.Assign) and isinstance(n.targets[0], ast.Name) and " ".join(u(n.value).split()) in ("_expression(ctx.expression())", "_literal(ctx.nonnumeric())")]
+    if not vsrc or len({n.targets[0].id for n in vsrc}) != 1:
+        raise Inconclusive("exitExpressionvar: the evaluated initialiser is not bound to one local name")
+    VAL = vsrc[0].targets[0].id
     vt = None
     for d in defs:
         v = d.value
         txt = " ".join(u(d).split())[:70]
         if isinstance(v, ast.Call) and isinstance(v.func, ast.Subscript) and u(v.func.value) in ("PYTHON_TYPES", "NUMPY_TYPES"):
             tkey = resolved_text(fn, v.func.slice, d)
-            ok = tkey == "ctx.vartype().getText()" and len(v.args) == 1 and u(v.args[0]) == "value"
+            ok = tkey == "ctx.vartype().getText()" and len(v.args) == 1 and u(v.args[0]) == VAL
             rep.check(ok, R, ix.site(f, d), "`%s` casts the initialiser with the constructor of the declared type" % txt, "type key `%s`" % tkey, key="cast|" + u(v.func.value))
-        elif isinstance(v, ast.Name) and v.id == "value":
+        elif isinstance(v, ast.Name) and v.id == VAL:
             # uncast path: only under isinstance(value, sym.Expr)
             r = Reach(fn, d)
             for sym in (True, False):
                 def atom(node, sym=sym):
-                    if isinstance(node, ast.Call) and u(node.func) == "isinstance" and u(node.args[0]) == "value" and "Expr" in u(node.args[1]):
+                    if isinstance(node, ast.Call) and u(node.func) == "isinstance" and u(node.args[0]) == VAL and "Expr" in u(node.args[1]):
                         return sym
                     return AEval.NO
                 got = r.may_reach(atom)
@@ -91,7 +95,7 @@ def c05_2(rep, ix):
         else:
             rep.bad(R, ix.site(f, d), "`%s` is a cast with the declared type or the symbolic pass-through" % txt, key="def|" + txt)
     # value comes from the initialiser alternatives (expression | nonnumeric)
-    vd = {" ".join(u(n.value).split()) for n in walk_shallow(fn) if isinstance(n, ast.Assign) and u(n.targets[0]) == "value"}
+    vd = {" ".join(u(n.value).split()) for n in walk_shallow(fn) if isinstance(n, ast.Assign) and u(n.targets[0]) == VAL}
     rep.check(vd == {"_expression(ctx.expression())", "_literal(ctx.nonnumeric())"}, R, ix.site(f), "the initialiser value is the evaluated expression / literal child", "got %s" % sorted(vd), key="value src")
 
 
